@@ -5,6 +5,9 @@ PROP=$1; PATCH=$2
 if [ -n "$(git -C /repo status --porcelain)" ]; then echo "seedtest: /repo has uncommitted changes; commit them first"; exit 3; fi
 git -C /repo apply "$PATCH" || { echo "patch does not apply"; exit 3; }
 rm -f /verif/replay/out/$PROP-*
+# the evidence file describes runs on the unchanged tree: keep it out of the seeded run's way
+cp /verif/evidence/$PROP.json /tmp/seedtest_evidence_$PROP.json 2>/dev/null
 /verif/bin/govc check $PROP quick | cut -c1-300
+[ -f /tmp/seedtest_evidence_$PROP.json ] && mv /tmp/seedtest_evidence_$PROP.json /verif/evidence/$PROP.json
 git -C /repo apply -R "$PATCH"
 git -C /repo status --short | head -3
